@@ -1,7 +1,7 @@
 from harness.props import base
-from harness import preds, gens
+from harness import preds, streams, gens
 LEVEL = 'other'
-VFILES = ['Tree.v']
+VFILES = ['Tree.v', 'Refactor.v', 'Properties/C19.v']
 EXPLANATION = 'dump/eval, pickle, refactor splice predicates on implementation trees.'
 
 
@@ -10,4 +10,7 @@ def pred(v, code, m):
 
 
 def run(ctx, b, drv):
+    pend0 = base.Pending(ctx)
+    base.mismatches(ctx, pend0, streams.run_refactor(ctx, base.scale(ctx, 800), drv), None)
+    pend0.flush()
     base.std_text_check(ctx, b, drv, VFILES, ['parse'], pred, 500, 800, 'c19')
